@@ -117,6 +117,8 @@ class Compiler:
       if ty == 'list':
         for i in range(LIST_CAP):
           self.P.locals[full + f'[{i}]'] = ('int', 0)
+        self.P.locals[full + '.tk'] = ('int', 0)      # optional trailing exception element (kind, val)
+        self.P.locals[full + '.tv'] = ('int', 0)
     return full
 
   def lvar(self, name):
@@ -257,7 +259,10 @@ class Compiler:
         self.P.emit('set', line, dst=('l', full), e=v.c['len'])
         for i in range(LIST_CAP):
           self.P.emit('set', line, dst=('l', full + f'[{i}]'), e=v.c['items'][i])
-        self.env[self.scope + name] = Val('list', len=('l', full), items=[('l', full + f'[{i}]') for i in range(LIST_CAP)], var=('l', full))
+        self.P.emit('set', line, dst=('l', full + '.tk'), e=v.c.get('tk', C(0)))
+        self.P.emit('set', line, dst=('l', full + '.tv'), e=v.c.get('tv', C(0)))
+        self.env[self.scope + name] = Val('list', len=('l', full), items=[('l', full + f'[{i}]') for i in range(LIST_CAP)], var=('l', full),
+                                          tk=('l', full + '.tk'), tv=('l', full + '.tv'))
         return
       if v.ty == 'exc':
         full = self.local(name, 'exc')
@@ -410,6 +415,8 @@ class Compiler:
       self.P.emit('set', line, dst=('l', n), e=v.c['len'])
       for i in range(LIST_CAP):
         self.P.emit('set', line, dst=('l', n + f'[{i}]'), e=v.c['items'][i])
+      self.P.emit('set', line, dst=('l', n + '.tk'), e=v.c.get('tk', C(0)))
+      self.P.emit('set', line, dst=('l', n + '.tv'), e=v.c.get('tv', C(0)))
     elif v.ty in ('none', 'obj', 'iter', 'prim', 'str', 'retset'):
       slot['static'] = v
     else:
@@ -424,6 +431,8 @@ class Compiler:
       if ty == 'list':
         for i in range(LIST_CAP):
           self.P.locals[n + f'[{i}]'] = ('int', 0)
+        self.P.locals[n + '.tk'] = ('int', 0)
+        self.P.locals[n + '.tv'] = ('int', 0)
     return n
 
   def s_Assert(self, s):
@@ -549,7 +558,13 @@ class Compiler:
       return FALSE
     if v.ty == 'ref':
       return ('op', '!=', v.c['e'], C(0))
-    if v.ty in ('obj', 'prim', 'iter'):
+    if v.ty == 'obj':
+      fn = self.lookup(self.objects[v.c['obj']].cls, '__bool__')
+      if fn is not None:
+        r = self.inline(self.objects[v.c['obj']], fn, [], {}, node)
+        return self.truth(r, node)
+      return TRUE
+    if v.ty in ('prim', 'iter'):
       return TRUE
     if v.ty == 'const':
       return C(1 if v.c['v'] else 0)
@@ -595,7 +610,7 @@ class Compiler:
         return Val('int', e=C(g))
     if e.id in ('STOP_ITERATION',):
       return Val('exc', kind=C(K_STOP), val=C(0))
-    if e.id in EXC_NAMES or e.id in ('queue', 'asyncio', 'types', 'logging') or e.id in self.sources:
+    if e.id in EXC_NAMES or e.id in ('queue', 'asyncio', 'types', 'logging', 'lazy_fns', 'time', 'Iterable') or e.id in self.sources:
       return Val('name', name=e.id)
     self.err(e, f'unknown name {e.id}')
 
@@ -782,7 +797,7 @@ class Compiler:
       if ty == 'exc':
         return Val('exc', kind=self.rd(spec.name, a, node), val=self.rd(spec.name, a + '.val', node))
       if ty == 'retset':
-        return Val('retset', mask=('g', spec.name, a), cnt=('g', spec.name, a + '.cnt'), obj=spec.name, field=a)
+        return Val('retset', mask=('g', spec.name, a), cnt=('g', spec.name, a + '.cnt'), obj=spec.name, field=a, line=getattr(node, 'lineno', 0))
       if ty == 'ref':
         return Val('ref', e=self.rd(spec.name, a, node), candidates=spec.fields[a][2] if len(spec.fields[a]) > 2 else None)
       if ty == 'list':
@@ -852,6 +867,9 @@ class Compiler:
         self.err(e, 'isinstance form')
       if n in EXC_NAMES:
         return self.make_exc(n, e)
+      if n == 'BATCH_HAS_MARKER':
+        v = self.expr(e.args[0])
+        return Val('bool', e=('op', '!=', v.c.get('tk', C(0)), C(K_NONE)))
       if n == 'list':
         return self.expr(e.args[0]) if e.args else self.empty_list()
       fn = self.sources.get('', {}).get(n)
@@ -874,6 +892,13 @@ class Compiler:
             kw = {k.arg: self.expr(k.value) for k in e.keywords}
             return self.inline(cur, fn, args, kw, e, cls=c)
         self.err(e, f'super().{f.attr} not found')
+      if f.attr in ('_return_pickled', 'maybe_make', 'maybe_unpickle', 'dumps', 'loads') and e.args:
+        base_is_self = isinstance(f.value, ast.Name) and f.value.id == 'self'
+        base_is_lazy = 'lazy_fns' in ast.dump(f.value)
+        if (f.attr == '_return_pickled' and base_is_self) or base_is_lazy:
+          return self.expr(e.args[0])           # (un)pickling / materialising a plain value is the identity for the model
+      if f.attr == 'time' and isinstance(f.value, ast.Name) and f.value.id == 'time':
+        return Val('int', e=C(0))
       target = self.expr(f)
       if target.ty == 'method':
         args = [self.expr(a) for a in e.args]
@@ -893,7 +918,8 @@ class Compiler:
       if isinstance(a0, ast.Starred):
         v = self.expr(a0.value)
         if v.ty == 'retset':
-          val = ('op', '+', self.rd(v.c['obj'], v.c['field'], e), ('op', '*', self.rd(v.c['obj'], v.c['field'] + '.cnt', e), C(16)))
+          at = ast.Pass(lineno=v.c.get('line') or e.lineno, col_offset=0)     # the attribute is loaded where the (inlined) property body reads it
+          val = ('op', '+', self.rd(v.c['obj'], v.c['field'], at), ('op', '*', self.rd(v.c['obj'], v.c['field'] + '.cnt', at), C(16)))
         elif v.ty == 'excargs':
           val = v.c['val']
         else:
@@ -916,13 +942,16 @@ class Compiler:
   def e_List(self, e):
     if len(e.elts) > LIST_CAP:
       self.err(e, 'list literal too long')
-    items = []
-    for x in e.elts:
+    items, tk, tv = [], C(0), C(0)
+    for i, x in enumerate(e.elts):
       v = self.expr(x)
+      if v.ty == 'exc' and i == len(e.elts) - 1:
+        tk, tv = v.c['kind'], v.c['val']
+        continue
       if v.ty not in ('int', 'bool'):
         self.err(e, 'list literal of non-ints')
       items.append(v.c['e'])
-    return Val('list', len=C(len(items)), items=items + [C(0)] * (LIST_CAP - len(items)))
+    return Val('list', len=C(len(items)), items=items + [C(0)] * (LIST_CAP - len(items)), tk=tk, tv=tv)
 
   def e_Tuple(self, e):
     return Val('tuple', items=[self.expr(x) for x in e.elts])
@@ -975,6 +1004,12 @@ class Compiler:
           self.P.place(lb)
           self.P.emit('log', line, log=t.c['log'], tag=C(tag), kind=C(0), val=v.c['items'][i])
           self.P.place(ls)
+        if 'tk' in v.c:          # trailing exception marker: logged as stop (StopIteration) or err (anything else)
+          lb, ls = self.P.label('logtail'), self.P.label('logtailskip')
+          self.P.emit('br', line, e=('op', '!=', v.c['tk'], C(K_NONE)), t=lb, f=ls)
+          self.P.place(lb)
+          self.P.emit('log', line, log=t.c['log'], tag=('ite', ('op', '==', v.c['tk'], C(K_STOP)), C(1), C(2)), kind=v.c['tk'], val=v.c['tv'])
+          self.P.place(ls)
       else:
         self.P.emit('log', line, log=t.c['log'], tag=C(tag), kind=C(0), val=C(0))
       return Val('none')
@@ -984,6 +1019,11 @@ class Compiler:
       var = t.c['var']
       if name == 'append':
         v = args[0]
+        if v.ty == 'exc' and var[0] == 'l':
+          # an exception object appended as the LAST element (terminal marker of a batch)
+          self.P.emit('set', line, dst=('l', var[1] + '.tk'), e=v.c['kind'])
+          self.P.emit('set', line, dst=('l', var[1] + '.tv'), e=v.c['val'])
+          return Val('none')
         if v.ty not in ('int', 'bool'):
           self.err(e, f'append of {v.ty}')
         self.P.emit('lappend', line, var=var, e=v.c['e'])
@@ -1173,7 +1213,7 @@ class Compiler:
       return Val('exc', kind=('l', n), val=('l', n + '.val'))
     if tys == {'list'}:
       n = slot['name'] + '.list'
-      return Val('list', len=('l', n), items=[('l', n + f'[{i}]') for i in range(LIST_CAP)], var=('l', n))
+      return Val('list', len=('l', n), items=[('l', n + f'[{i}]') for i in range(LIST_CAP)], var=('l', n), tk=('l', n + '.tk'), tv=('l', n + '.tv'))
     self.err(node, f'mixed return types {tys}')
 
 
